@@ -559,10 +559,10 @@ impl KindF for TDDFunction {
 // ------------------------------------------------------------------------------------------------
 // manager life time
 //
-// `ManagerRef::drop` tells the manager's GC thread to quit with a condition variable, and that
-// thread waits unconditionally: a manager dropped before its GC thread first reaches `wait` is
-// never released (two threads and its address space stay). Scenario managers are therefore
-// retired into a list that is emptied only after a short pause.
+// Before /repo bfc0a3c a manager dropped before its GC thread first reached `wait` was never
+// released (lost wakeup: two threads and its address space stayed). Scenario managers are
+// retired into a list that is emptied only after a short pause; harmless now, and it keeps the
+// scenario usable on a tree without that fix.
 
 thread_local! {
     static GRAVEYARD: std::cell::RefCell<Vec<Box<dyn std::any::Any>>> = const { std::cell::RefCell::new(Vec::new()) };
@@ -841,14 +841,6 @@ fn line_starts(file: &[u8]) -> Vec<usize> {
     v
 }
 
-/// A count tweaked to an absurd value must not be mutated again: a second mutation can shrink it
-/// into the range where the importer really tries to allocate that much and the process aborts
-/// (e.g. `.nnodes 230584300921393952`: "memory allocation of 922337203685575808 bytes failed").
-fn is_huge_tweak(label: &str) -> bool {
-    label.starts_with("num@")
-        && label.rsplit("->").next().and_then(|v| v.parse::<u128>().ok()).map(|v| v >= 1 << 32).unwrap_or(true)
-}
-
 /// one seeded mutation; with `safe` the text part only receives bytes < 0x80 (so that the
 /// importer's lossy UTF-8 conversion of names is the identity on what the model sees)
 fn mutate(file: &[u8], rng: &mut Rng, safe: bool) -> (Vec<u8>, String) {
@@ -936,7 +928,9 @@ fn mutate(file: &[u8], rng: &mut Rng, safe: bool) -> (Vec<u8>, String) {
             let v: u128 = std::str::from_utf8(&l[a..b]).unwrap().parse().unwrap_or(0);
             let small = [v + 1, v.saturating_sub(1), 0, v + 2];
             let mid = [v + 1, v.saturating_sub(1), 0, 2 * v + 1, 4294967295, 4294967296, 1 << 63];
-            let huge = [v + 1, v.saturating_sub(1), 0, 1 << 61, 1 << 63, u64::MAX as u128, 1 << 64];
+            // since fix 178db83 no capacity is taken from these counts (before: capacity overflow panic
+            // from 2^61 on, allocation abort of the whole process below that)
+            let huge = [v + 1, v.saturating_sub(1), 0, 1 << 40, 1 << 61, 1 << 63, u64::MAX as u128, 1 << 64];
             let nv = match key.as_slice() {
                 b".nvars" | b".nsuppvars" => *rng.pick(&small),
                 b".nnodes" | b".nroots" => *rng.pick(&huge),
@@ -1213,6 +1207,14 @@ impl<F: KindF> World<F> {
             ctx.count("export-only-kind");
             return;
         }
+        if F::KIND == "mtbdd" && !file_mode_is_ascii(file) {
+            // known finding: `binary_supported()` only looks at the current number of terminals
+            ctx.fail(
+                "binary-export-loses-constant",
+                &format!("{what}: an MTBDD manager holding a single terminal is exported in binary mode without an error; the file does not contain the terminal's value and the importer rejects it"),
+            );
+            return;
+        }
         // --- same manager: handles equal
         match import_into::<F>(&self.mref, file, true, false) {
             ImpOut::Ok { roots: got, .. } => {
@@ -1348,7 +1350,7 @@ impl<F: KindF> DynWorld for World<F> {
         let (mut ok, mut err, mut pan, mut rej) = (0, 0, 0, 0);
         for _ in 0..n {
             let (mut f, mut label) = mutate(&file, &mut rng, false);
-            if rng.chance(1, 4) && !is_huge_tweak(&label) {
+            if rng.chance(1, 4) {
                 let (f2, l2) = mutate(&f, &mut rng, false);
                 f = f2;
                 label = format!("{label}+{l2}");
@@ -1706,12 +1708,20 @@ struct G<'a> {
     l2v: Vec<u32>,
     case_no: u64,
     funcs: Vec<String>,
+    /// only the known-finding case may export an MTBDD with a single terminal in binary mode
+    allow_single_terminal_binary: bool,
 }
 
 impl G<'_> {
     fn case(&mut self, name: &str) {
         self.case_no += 1;
-        writeln!(self.w, "case {} {}", self.case_no, name).unwrap();
+        self.allow_single_terminal_binary = name.starts_with("kf-");
+        if name.starts_with("kf-") {
+            // known-finding cases are matched by name: no running number
+            writeln!(self.w, "case {name}").unwrap();
+        } else {
+            writeln!(self.w, "case {} {}", self.case_no, name).unwrap();
+        }
         self.world = None;
         bury();
         self.funcs.clear();
@@ -1741,6 +1751,11 @@ impl G<'_> {
         let w = self.world.as_ref()?;
         let sv = w.sview_of(specs)?;
         let info = w.info();
+        let mut st = st.clone();
+        if self.kind == "mtbdd" && info.nterm == 1 && !self.allow_single_terminal_binary {
+            st.ascii = true;
+        }
+        let st = &st;
         let roots = if specs.is_empty() {
             "-".to_string()
         } else {
@@ -1834,8 +1849,8 @@ impl G<'_> {
             self.import(other, n2, nvars, &l2v, file);
         }
         for _ in 0..nmut {
-            let (mut f, label) = mutate(file, rng, false);
-            if rng.chance(1, 5) && !is_huge_tweak(&label) {
+            let (mut f, _) = mutate(file, rng, false);
+            if rng.chance(1, 5) {
                 f = mutate(&f, rng, false).0;
             }
             self.import(&kind, not, nvars, &l2v, &f);
@@ -2040,8 +2055,8 @@ fn crafted(g: &mut G) {
             g.export(&st, &[RootSpec { func: "f0".into(), name: Some(b"x y".to_vec()) }, RootSpec { func: "f1".into(), name: Some(Vec::new()) }], true);
         }
     }
-    // MTBDD with a single terminal in the manager: binary mode is chosen
-    g.case("crafted-mtbdd-single-terminal");
+    // known finding: MTBDD with a single terminal in the manager, binary mode is chosen
+    g.case("kf-mtbdd-single-constant-binary");
     if g.mgr("mtbdd", 2, &[], None) {
         g.func("c", "vals=5,5,5,5");
         for ascii in [false, true] {
@@ -2055,7 +2070,7 @@ fn crafted(g: &mut G) {
 
 fn generate(cfg: &GenCfg, rng: &mut Rng, w: &mut dyn Write) {
     let scale = cfg.scale.max(1);
-    let mut g = G { w, world: None, kind: String::new(), nvars: 0, l2v: Vec::new(), case_no: 0, funcs: Vec::new() };
+    let mut g = G { w, world: None, kind: String::new(), nvars: 0, l2v: Vec::new(), case_no: 0, funcs: Vec::new(), allow_single_terminal_binary: false };
     let nmut = if cfg.thorough { 30 } else { 10 };
     crafted(&mut g);
     // three variables, every order, sampled subsets of the 256 functions as roots, every setting
@@ -2160,7 +2175,7 @@ fn generate(cfg: &GenCfg, rng: &mut Rng, w: &mut dyn Write) {
 /// oracle-only stream: every truncation point and seeded mutations, evaluated at run time
 fn generate_fuzz(cfg: &GenCfg, rng: &mut Rng, w: &mut dyn Write) {
     let scale = cfg.scale.max(1);
-    let mut g = G { w, world: None, kind: String::new(), nvars: 0, l2v: Vec::new(), case_no: 0, funcs: Vec::new() };
+    let mut g = G { w, world: None, kind: String::new(), nvars: 0, l2v: Vec::new(), case_no: 0, funcs: Vec::new(), allow_single_terminal_binary: false };
     let ncases = if cfg.thorough { 12 } else { 3 } * scale;
     let nmut = if cfg.thorough { 400 } else { 150 };
     for kind in ["bdd", "bcdd", "zbdd", "mtbdd"] {
